@@ -78,6 +78,16 @@ static int scenario(int serverSendsAlert)
     /* a record that does not authenticate */
     garbage[0] = 23; garbage[1] = 3; garbage[2] = 3; garbage[3] = 0; garbage[4] = 32;
     for (i = 5; i < 37; i++) { garbage[i] = (unsigned char) (i * 7); }
+    if (serverSendsAlert < 0)
+    {
+        /* honest control: no alert at all, B just closes */
+        closeGracefully(&b);
+        closeGracefully(&b2);
+        r = openConn(&y, copySid(sid));
+        printf("  Y : same id after both connections closed cleanly: resumed=%d (expected 1)\n", r);
+        closeGracefully(&y);
+        return r;
+    }
     if (!serverSendsAlert)
     {
         /* client B trips over it and sends a fatal alert to the server */
@@ -131,6 +141,9 @@ int main(void)
     skeys = newServerKeys(); ckeys = newClientKeys();
     if (!skeys || !ckeys) { return 2; }
 
+    printf("Part 0: honest control, two connections of a session, no alert\n");
+    r = scenario(-1);
+    if (r != 1) { printf("BROKEN: honest resumption after sibling connections closed failed\n"); return 3; }
     printf("Part 1: fatal alert received by the server on one of two connections of a session\n");
     r = scenario(0);
     if (r == 1)
@@ -147,5 +160,6 @@ int main(void)
             "index||zeros, which the server never issued\n");
         v++;
     }
+    if (!v) { printf("OK: a session invalidated by a fatal alert stays invalid\n"); }
     return v ? 1 : 0;
 }
